@@ -130,6 +130,21 @@ dict for every kick.  `fmt` of a case: the broker's formatter (absent = what the
 set with with_formatter, "json" = JSONFormatter), `ser`: "pickle" = PickleSerializer instead of the JSON one.
 Executions' `val` / `valtmp` marks go into plain lists / dicts nested in the object they received too.
 
+ONE OBJECT AT SEVERAL POSITIONS OF A MESSAGE (`refs` of a message plan = {"how": "same" | "intern" | "equal", "wrap": None |
+"tuple" | "box"}; iso10).  The plan's values (`raw`, `slabels`, `tids`) say WHAT the message carries - e.g. a dict argument
+{"owner": u, "editor": u}, the list [path, path], a label whose value is the task id or the string argument -, `refs` says
+whether parts that are equal are also the SAME object when the message is handed to the sending side, as they are when a
+program builds them from one variable (kiq(path, path)): `same` - every str / list / dict of the message (task id, label
+keys and values, args, kwargs, at any depth) that equals an earlier one IS that earlier object; `intern` - every string is
+built separately and passed through sys.intern (equal strings are one object, containers stay apart); `equal` - every
+string (longer than one character: shorter ones are singletons of the interpreter anyway) and every container is an object
+of its own (control group).  `wrap`: lists nested in an argument are tuples / dicts of the shape {"n": int, "items": [ints]}
+nested in an argument are instances of the dataclass Box on the sending side (what a picklable custom object is to the
+client).  What the driver really built is counted (`aliased` event: objects referenced from two or more positions, by kind).
+`ser` of a case: "pickle" = PickleSerializer, "json" = a JSONSerializer set by hand (absent = what the broker has; cbor2 /
+msgpack / orjson are not installed here: those serializers of taskiq/serializers cannot be constructed); `ser_late`: the
+serializer is set after the Receiver has been built (the formatter looks the broker's serializer up when it is used).
+
 The execution an event belongs to is carried by a ContextVar set by the harness task that calls
 `Receiver.callback` (propagated into the worker thread of sync task functions by the loop subclass) - it does
 not go through anything the properties are about."""
@@ -385,6 +400,91 @@ def unmark_val(obj, e):
     elif isinstance(obj, (Box, PBox)):
         if -(e + 1) in obj.items:
             obj.items.remove(-(e + 1))
+
+
+def fresh_str(v):
+    """an equal string that is an object of its own (strings of length <= 1 are singletons of the interpreter)"""
+    return "".join([v[:1], v[1:]]) if len(v) > 1 else v
+
+
+def share_fields(fields, refs):
+    """the fields of a message with its equal parts made ONE object (`same`), its strings interned (`intern`) or every part
+    an object of its own (`equal`) - see the module docstring; the values are what they were"""
+    how, wrap = refs.get("how", "same"), refs.get("wrap")
+    pool = {}
+
+    def walk(v, depth):
+        if isinstance(v, str):
+            if how == "same":
+                return pool.setdefault(("str", v), v)
+            v = fresh_str(v)
+            return sys.intern(v) if how == "intern" else v
+        if not isinstance(v, (list, dict)):
+            return v
+        key = (type(v).__name__, json.dumps(v, sort_keys=True))
+        if how == "same" and key in pool:
+            return pool[key]
+        if isinstance(v, list):
+            new = [walk(x, depth + 1) for x in v]
+            if wrap == "tuple" and depth >= 1:
+                new = tuple(new)
+        else:
+            new = {walk(k, depth + 1): walk(x, depth + 1) for k, x in v.items()}
+            if (wrap == "box" and depth >= 1 and set(new) == {"n", "items"} and type(new["n"]) is int
+                    and isinstance(new["items"], list) and all(type(x) is int for x in new["items"])):
+                new = Box(new["n"], new["items"])
+        if how == "same":
+            pool[key] = new
+        return new
+
+    out = dict(fields)
+    out["task_id"] = walk(fields["task_id"], 0)
+    out["task_name"] = walk(fields["task_name"], 0)
+    out["labels"] = {walk(k, 0): walk(v, 0) for k, v in fields["labels"].items()}
+    out["args"] = [walk(v, 0) for v in fields["args"]]
+    out["kwargs"] = {walk(k, 0): walk(v, 0) for k, v in fields["kwargs"].items()}
+    return out
+
+
+def count_shared(fields):
+    """how many objects of each kind the built message references from two or more positions (the driver's own look at
+    what it hands to the sending side; identity, not equality)"""
+    seen = {}
+
+    def visit(v):
+        if isinstance(v, str):
+            kind = "str" if len(v) > 1 else "str of length <= 1"
+        elif isinstance(v, (list, dict, tuple, Box)):
+            kind = type(v).__name__
+        else:
+            return
+        ent = seen.setdefault(id(v), [kind, 0])
+        ent[1] += 1
+        if ent[1] > 1:
+            return
+        if isinstance(v, dict):
+            for k, x in v.items():
+                visit(k)
+                visit(x)
+        elif isinstance(v, (list, tuple)):
+            for x in v:
+                visit(x)
+        elif isinstance(v, Box):
+            visit(v.items)
+
+    visit(fields["task_id"])
+    visit(fields["task_name"])
+    for part in (fields["labels"], fields["kwargs"]):
+        for k, x in part.items():
+            visit(k)
+            visit(x)
+    for x in fields["args"]:
+        visit(x)
+    out = {}
+    for kind, n in seen.values():
+        if n > 1:
+            out[kind] = out.get(kind, 0) + 1
+    return out
 
 
 def tname(case, t):
@@ -1287,9 +1387,20 @@ def _run_case(case):
     extra = {k: path[k] for k in ("max_async_tasks", "await_inplace", "sync_tasks_pool_size") if kind == "inmemory" and k in path}
     broker = InMemoryBroker(propagate_exceptions=bool(case.get("propagate", True)), cast_types=validate, **extra)
     broker.result_backend = RecBackend()
-    if case.get("ser") == "pickle":
-        from taskiq.serializers import PickleSerializer
-        broker.with_serializer(PickleSerializer())
+
+    def set_serializer():
+        # one serializer object per case (per broker), used for every message of the case - both directions
+        if case.get("ser") == "pickle":
+            from taskiq.serializers import PickleSerializer
+            broker.with_serializer(PickleSerializer())
+        elif case.get("ser") == "json":
+            from taskiq.serializers import JSONSerializer
+            broker.with_serializer(JSONSerializer())
+        elif case.get("ser") is not None:
+            raise ValueError(case["ser"])
+
+    if not case.get("ser_late"):
+        set_serializer()
     if case.get("fmt") == "proxy":
         from taskiq.formatters.proxy_formatter import ProxyFormatter
         broker.with_formatter(ProxyFormatter(broker))
@@ -1412,6 +1523,8 @@ def _run_case(case):
                               separators=(",", ":") if w.get("compact") else (", ", ": ")).encode("utf-8")
         return broker.formatter.dumps(TaskiqMessage(**fields)).message
 
+    if case.get("ser_late"):
+        set_serializer()        # after the Receiver (and the broker's own one) exists, before anything is serialized
     for i, m in enumerate(case["msgs"]):
         if m.get("pobj") is not None:
             # built by the producer when it is kicked (produce)
@@ -1419,6 +1532,10 @@ def _run_case(case):
             calls.append(None)
             continue
         fields = fields_of(i, m)
+        if m.get("refs") is not None:
+            # equal parts of the message are one object / interned / objects of their own; the values stay what they are
+            fields = share_fields(fields, m["refs"])
+            R.ev("aliased", i, count_shared(fields))
         data = dump(m, fields)
         datas.append(sent.setdefault(data, data))
         calls.append(types.SimpleNamespace(**fields))
